@@ -1,14 +1,17 @@
 package c02
 
 import (
+	"encoding/json"
 	"fmt"
 	"os"
+	"os/exec"
 	"runtime"
 	"sort"
 	"strings"
 	"sync"
 	"sync/atomic"
 	"testing"
+	"testing/synctest"
 	"time"
 
 	"github.com/anishathalye/porcupine"
@@ -26,7 +29,9 @@ import (
 )
 
 func TestMain(m *testing.M) {
-	service.GetReplayCache(1 << 62) // janitor started outside any bubble; clean-up is driven explicitly
+	if os.Getenv(janitorChildEnv) == "" {
+		service.GetReplayCache(1 << 62) // janitor started outside any bubble; clean-up is driven explicitly
+	}
 	os.Exit(m.Run())
 }
 
@@ -57,7 +62,9 @@ func (k pkey) String() string {
 var zoneCtr atomic.Uint64
 
 func (k pkey) auth() (types.PrincipalName, types.Authenticator) {
-	sn := types.PrincipalName{NameType: 2, NameString: strings.Split(k.sname, "/")}
+	// the name type of a principal name is a hint and not part of the name (RFC 4120 6.2): the same service is named with
+	// different types from one presentation to the next
+	sn := types.PrincipalName{NameType: []int32{2, 3, 2, 1, 2, 0}[zoneCtr.Add(1)%6], NameString: strings.Split(k.sname, "/")}
 	ct := k.ctime
 	// The same instant can reach the cache as different time.Time values: a decoder builds a fresh *time.Location for every
 	// GeneralizedTime with a numeric zone offset. Every other presentation therefore carries the instant in a newly made
@@ -174,6 +181,8 @@ func TestProp(t *testing.T) {
 	phase("stress", func() { monitorStress(r) })
 	phase("sequential_histories", func() { monitorHistories(t, r) })
 	phase("verifyapreq_histories", func() { monitorVerifyPath(t, r) })
+	phase("volume", func() { monitorVolume(t, r) })
+	phase("janitor_processes", func() { monitorJanitor(t, r) })
 	r.Require("coop_schedules", 100)
 	r.Require("coop_histories_ok", 100)
 	r.Require("stress_trials", 10000)
@@ -182,6 +191,10 @@ func TestProp(t *testing.T) {
 	r.Require("seq_replays_detected", 1000)
 	r.Require("verifypath_presentations", 1000)
 	r.Require("verifypath_replays_detected", 100)
+	r.Require("volume_represented", 100000)
+	r.Require("janitor_presentations", 1000)
+	r.Require("janitor_replays_detected", 100)
+	r.Require("janitor_wakeups_with_entries", 10)
 }
 
 // ---------------------------------------------------------------------------------------
@@ -675,6 +688,125 @@ func monitorHistories(t *testing.T, r *vh.Run) {
 // ---------------------------------------------------------------------------------------
 // monitor 3b: the full VerifyAPREQ path (singleton cache => histories run one after another)
 
+// vpEnv is what the VerifyAPREQ histories share: two services with their keys in one keytab.
+type vpEnv struct {
+	et        int32
+	svc, svc2 kmsg.Name
+	ktm       []accept.KeytabEntry
+	gkt       *keytab.Keytab
+}
+
+func newVPEnv() (*vpEnv, error) {
+	e := &vpEnv{et: 18, svc: kmsg.N(2, "HTTP", "host.test.gokrb5"), svc2: kmsg.N(2, "HTTP", "other.test.gokrb5")}
+	e.ktm = []accept.KeytabEntry{
+		{Realm: "TEST.GOKRB5", Name: e.svc, Kvno: 1, Etype: e.et, Timestamp: 1, Key: pcommon.RefKey(vh.NewRand("c02kt", 1), e.et)},
+		{Realm: "TEST.GOKRB5", Name: e.svc2, Kvno: 1, Etype: e.et, Timestamp: 1, Key: pcommon.RefKey(vh.NewRand("c02kt", 2), e.et)},
+	}
+	e.gkt = keytab.New()
+	if err := e.gkt.Unmarshal(accept.KeytabV2(e.ktm)); err != nil {
+		return nil, err
+	}
+	return e, nil
+}
+
+// history drives one random history of presentations, advances of the (virtual) clock and clean-ups through
+// service.VerifyAPREQ and the process-wide cache, for the permitted skew sk. It must run inside a bubble; it panics when a
+// valid request is refused for another reason than being a replay. fine: short advances and timestamps anywhere in the
+// window (for skews of a few seconds, where the janitor of the cache wakes several times within one history).
+func (e *vpEnv) history(rnd *vh.Rand, hl int, sk time.Duration, fine bool) (hist []op) {
+	et := e.et
+	set := service.NewSettings(e.gkt, service.DecodePAC(false), service.MaxClockSkew(sk))
+	t0 := time.Now()
+	type minted struct {
+		k   pkey
+		req []byte
+	}
+	var pool []minted
+	mint := func(k pkey, sn kmsg.Name, ske accept.KeytabEntry) minted {
+		cn := kmsg.N(1, k.cname)
+		sess := kmsg.Key{Type: et, Value: pcommon.RefKey(rnd, et)}
+		m := accept.Mint{ServiceKey: kmsg.Key{Type: et, Value: ske.Key}, Kvno: kmsg.U32(1), Realm: "TEST.GOKRB5", SName: sn,
+			Tkt:  kmsg.EncTicketPart{Flags: 0x40800000, Key: sess, CRealm: "TEST.GOKRB5", CName: cn, AuthTime: t0.Add(-time.Minute), EndTime: t0.Add(10 * time.Hour)},
+			Auth: kmsg.Authenticator{CRealm: "TEST.GOKRB5", CName: cn, CTime: k.ctime, Cusec: k.cusec},
+			Conf: rnd.Bytes}
+		b, err := m.Build()
+		if err != nil {
+			panic(err)
+		}
+		return minted{k, b}
+	}
+	var clk int64
+	for i := 0; i < hl; i++ {
+		x := rnd.Intn(20)
+		switch {
+		case x == 0 || (fine && x < 6):
+			var d time.Duration
+			if fine {
+				d = []time.Duration{100 * time.Millisecond, 250 * time.Millisecond, 300 * time.Millisecond, 450 * time.Millisecond, 700 * time.Millisecond, sk / 2, sk + time.Microsecond}[rnd.Intn(7)]
+			} else {
+				d = []time.Duration{sk / 2, sk, sk + time.Microsecond, sk + 500*time.Millisecond, time.Second - time.Microsecond, 300 * time.Millisecond}[rnd.Intn(6)]
+			}
+			time.Sleep(d)
+			hist = append(hist, op{Kind: "advance", Advance: d.String()})
+		case x == 6 && !fine:
+			service.GetReplayCache(sk).ClearOldEntries(sk)
+			hist = append(hist, op{Kind: "cleanup"})
+		default:
+			var m minted
+			represent := len(pool) > 0 && x < 14
+			if represent {
+				m = pool[rnd.Intn(len(pool))] // re-present (the same bytes, or a re-minted request with the same authenticator)
+			} else {
+				now := time.Now()
+				off := []time.Duration{-sk, -sk / 2, 0, sk / 2, sk}[rnd.Intn(5)]
+				if fine {
+					off = time.Duration(rnd.Intn(int(2*sk/time.Microsecond)+1))*time.Microsecond - sk
+				}
+				ct := now.Add(off).Truncate(time.Microsecond)
+				k := pkey{cname: []string{"a", "b"}[rnd.Intn(2)], ctime: ct.Truncate(time.Second), cusec: int(ct.Sub(ct.Truncate(time.Second)) / time.Microsecond)}
+				if rnd.Bool() {
+					k.sname = "HTTP/host.test.gokrb5"
+					m = mint(k, e.svc, e.ktm[0])
+				} else {
+					k.sname = "HTTP/other.test.gokrb5"
+					m = mint(k, e.svc2, e.ktm[1])
+				}
+				pool = append(pool, m)
+			}
+			now := time.Now()
+			ct := m.k.ctime.Add(time.Duration(m.k.cusec) * time.Microsecond)
+			// outside the window the request is presented all the same: it must not be accepted (again); any error will do
+			outside := now.Sub(ct) > sk || ct.Sub(now) > sk
+			var a messages.APReq
+			if err := a.Unmarshal(m.req); err != nil {
+				panic("unmarshal of reference AP-REQ: " + err.Error())
+			}
+			if represent && rnd.Intn(3) == 0 {
+				// the service name of a ticket travels in the clear and its name type is only a hint (RFC 4120 6.2): a replay
+				// whose ticket says another name type is the same authenticator for the same service
+				a.Ticket.SName.NameType = []int32{1, 3, 0}[rnd.Intn(3)]
+			}
+			clk++
+			c := clk
+			ok, _, err := service.VerifyAPREQ(&a, set)
+			clk++
+			o := op{Kind: "present", Key: m.k.String(), Call: c, Return: clk}
+			if ok {
+				o.Replay = false
+			} else if outside {
+				hist = append(hist, op{Kind: "present-outside-window-rejected", Key: m.k.String(), Call: c, Return: clk})
+				continue
+			} else if ke, isK := err.(messages.KRBError); isK && ke.ErrorCode == 34 {
+				o.Replay = true
+			} else {
+				panic(fmt.Sprintf("valid request rejected with %v", err))
+			}
+			hist = append(hist, o)
+		}
+	}
+	return hist
+}
+
 func monitorVerifyPath(t *testing.T, r *vh.Run) {
 	si, _ := vh.Shard()
 	if si != 0 {
@@ -684,19 +816,11 @@ func monitorVerifyPath(t *testing.T, r *vh.Run) {
 	if vh.Thorough() {
 		nh, hl = 3000, 100
 	}
-	et := int32(18)
-	svc := kmsg.N(2, "HTTP", "host.test.gokrb5")
-	svc2 := kmsg.N(2, "HTTP", "other.test.gokrb5")
-	ktm := []accept.KeytabEntry{
-		{Realm: "TEST.GOKRB5", Name: svc, Kvno: 1, Etype: et, Timestamp: 1, Key: pcommon.RefKey(vh.NewRand("c02kt", 1), et)},
-		{Realm: "TEST.GOKRB5", Name: svc2, Kvno: 1, Etype: et, Timestamp: 1, Key: pcommon.RefKey(vh.NewRand("c02kt", 2), et)},
-	}
-	gkt := keytab.New()
-	if err := gkt.Unmarshal(accept.KeytabV2(ktm)); err != nil {
+	e, err := newVPEnv()
+	if err != nil {
 		r.Inconclusive("cannot load reference keytab: " + err.Error())
 		return
 	}
-	set := service.NewSettings(gkt, service.DecodePAC(false))
 	for h := 0; h < nh; h++ {
 		rnd := vh.NewRand("c02verify", h)
 		key := fmt.Sprintf("verifypath/%d", h)
@@ -706,104 +830,236 @@ func monitorVerifyPath(t *testing.T, r *vh.Run) {
 		pcommon.AtVirtual(t, time.Hour, func() {
 			pnc, pv, pw = vh.Guard(func() {
 				service.VerifResetReplayCache()
-				t0 := time.Now()
-				type minted struct {
-					k   pkey
-					req []byte
-				}
-				var pool []minted
-				mint := func(k pkey, sn kmsg.Name, ske accept.KeytabEntry) minted {
-					cn := kmsg.N(1, k.cname)
-					sess := kmsg.Key{Type: et, Value: pcommon.RefKey(rnd, et)}
-					m := accept.Mint{ServiceKey: kmsg.Key{Type: et, Value: ske.Key}, Kvno: kmsg.U32(1), Realm: "TEST.GOKRB5", SName: sn,
-						Tkt:  kmsg.EncTicketPart{Flags: 0x40800000, Key: sess, CRealm: "TEST.GOKRB5", CName: cn, AuthTime: t0.Add(-time.Minute), EndTime: t0.Add(10 * time.Hour)},
-						Auth: kmsg.Authenticator{CRealm: "TEST.GOKRB5", CName: cn, CTime: k.ctime, Cusec: k.cusec},
-						Conf: rnd.Bytes}
-					b, err := m.Build()
-					if err != nil {
-						panic(err)
-					}
-					return minted{k, b}
-				}
-				var clk int64
-				for i := 0; i < hl; i++ {
-					x := rnd.Intn(20)
-					switch {
-					case x == 0:
-						d := []time.Duration{skew / 2, skew, skew + time.Microsecond, skew + 500*time.Millisecond, time.Second - time.Microsecond, 300 * time.Millisecond}[rnd.Intn(6)]
-						time.Sleep(d)
-						hist = append(hist, op{Kind: "advance", Advance: d.String()})
-					case x == 1:
-						service.GetReplayCache(skew).ClearOldEntries(skew)
-						hist = append(hist, op{Kind: "cleanup"})
-					default:
-						var m minted
-						if len(pool) > 0 && x < 12 {
-							m = pool[rnd.Intn(len(pool))] // re-present (the same bytes, or a re-minted request with the same authenticator)
-						} else {
-							now := time.Now()
-							off := []time.Duration{-skew, -skew / 2, 0, skew / 2, skew}[rnd.Intn(5)]
-							ct := now.Add(off).Truncate(time.Microsecond)
-							k := pkey{cname: []string{"a", "b"}[rnd.Intn(2)], ctime: ct.Truncate(time.Second), cusec: int(ct.Sub(ct.Truncate(time.Second)) / time.Microsecond)}
-							if rnd.Bool() {
-								k.sname = "HTTP/host.test.gokrb5"
-								m = mint(k, svc, ktm[0])
-							} else {
-								k.sname = "HTTP/other.test.gokrb5"
-								m = mint(k, svc2, ktm[1])
-							}
-							pool = append(pool, m)
-						}
-						now := time.Now()
-						ct := m.k.ctime.Add(time.Duration(m.k.cusec) * time.Microsecond)
-						// outside the window the request is presented all the same: it must not be accepted (again); any error will do
-						outside := now.Sub(ct) > skew || ct.Sub(now) > skew
-						var a messages.APReq
-						if err := a.Unmarshal(m.req); err != nil {
-							panic("unmarshal of reference AP-REQ: " + err.Error())
-						}
-						clk++
-						c := clk
-						ok, _, err := service.VerifyAPREQ(&a, set)
-						clk++
-						o := op{Kind: "present", Key: m.k.String(), Call: c, Return: clk}
-						if ok {
-							o.Replay = false
-						} else if outside {
-							hist = append(hist, op{Kind: "present-outside-window-rejected", Key: m.k.String(), Call: c, Return: clk})
-							continue
-						} else if ke, isK := err.(messages.KRBError); isK && ke.ErrorCode == 34 {
-							o.Replay = true
-						} else {
-							panic(fmt.Sprintf("valid request rejected with %v", err))
-						}
-						hist = append(hist, o)
-					}
-				}
+				hist = e.history(rnd, hl, skew, false)
 			})
 		})
-		np := 0
-		for _, o := range hist {
-			if o.Kind == "present" {
-				np++
-				r.Inc("verifypath_presentations")
-				if o.Replay {
-					r.Inc("verifypath_replays_detected")
-				}
-			}
-		}
-		r.Eval(key, np >= 2)
-		if pnc {
-			r.Violation("C02|verifypath|error|"+pw, "VerifyAPREQ history failed: "+pv, map[string]any{"case": key, "history": hist})
-			continue
-		}
-		if ok, why := judge(hist); !ok {
-			r.Violation("C02|verifypath|"+classify(why), why+" (service.VerifyAPREQ, virtual clock)", map[string]any{"case": key, "history": hist})
-			continue
-		}
-		if h == 0 {
-			r.SampleKind("verifypath", 1, hist)
-		}
+		judgeVerifyHistory(r, key, "verifypath", hist, pnc, pv, pw, h == 0)
 	}
 	service.VerifResetReplayCache()
+}
+
+func judgeVerifyHistory(r *vh.Run, key, fam string, hist []op, pnc bool, pv, pw string, sample bool) {
+	np := 0
+	for _, o := range hist {
+		if o.Kind == "present" {
+			np++
+			r.Inc(fam + "_presentations")
+			if o.Replay {
+				r.Inc(fam + "_replays_detected")
+			}
+		}
+	}
+	r.Eval(key, np >= 2)
+	if pnc {
+		r.Violation("C02|"+fam+"|error|"+pw, "VerifyAPREQ history failed: "+pv, map[string]any{"case": key, "history": hist})
+		return
+	}
+	if ok, why := judge(hist); !ok {
+		r.Violation("C02|"+fam+"|"+classify(why), why+" (service.VerifyAPREQ, virtual clock)", map[string]any{"case": key, "history": hist})
+		return
+	}
+	if sample {
+		r.SampleKind(fam, 1, hist)
+	}
+}
+
+// ---------------------------------------------------------------------------------------
+// monitor 3c: volume. One client presents a large number of distinct authenticators inside one window, then every one of
+// them again: each must be a replay however many the cache has been given to remember.
+
+func monitorVolume(t *testing.T, r *vh.Run) {
+	si, _ := vh.Shard()
+	if si != 0 {
+		return
+	}
+	n := 200000
+	if vh.Thorough() {
+		n = 2000000
+	}
+	var hist []op
+	var firstAccepted, forgotten int
+	var firstForgotten string
+	pnc, pv, pw := false, "", ""
+	pcommon.AtVirtual(t, time.Hour, func() {
+		pnc, pv, pw = vh.Guard(func() {
+			cache := service.VerifNewReplayCache()
+			base := time.Now().Truncate(time.Second)
+			key := func(i int) pkey {
+				// at most 500000 per second of client time: microseconds and three services spread the rest
+				return pkey{cname: "bulk", ctime: base.Add(time.Duration(i/1500000) * time.Second), cusec: (i / 3) % 500000 * 2, sname: []string{"HTTP/s1", "HTTP/s2", "host/s1"}[i%3]}
+			}
+			for i := 0; i < n; i++ {
+				sn, a := key(i).auth()
+				if !cache.IsReplay(sn, a) {
+					firstAccepted++
+				}
+				if i%50000 == 25000 {
+					cache.ClearOldEntries(skew)
+					time.Sleep(time.Second)
+				}
+			}
+			for i := 0; i < n; i++ {
+				k := key(i)
+				sn, a := k.auth()
+				rep := cache.IsReplay(sn, a)
+				if !rep {
+					forgotten++
+					if firstForgotten == "" {
+						firstForgotten = fmt.Sprintf("presentation %d of %d (%s)", i, n, k)
+					}
+				}
+				if i < 3 || !rep && len(hist) < 20 {
+					hist = append(hist, op{Kind: "present", Key: k.String(), Replay: rep})
+				}
+			}
+		})
+	})
+	r.Eval("volume", true)
+	r.Count("volume_first_presentations_accepted", int64(firstAccepted))
+	r.Count("volume_represented", int64(n))
+	if pnc {
+		r.Violation("C02|volume|panic|"+pw, "replay cache panicked: "+pv, map[string]any{"case": "volume"})
+		return
+	}
+	if firstAccepted != n {
+		r.Violation("C02|volume|first-presentation-refused", fmt.Sprintf("%d of %d distinct authenticators of one client were taken for replays on their first presentation", n-firstAccepted, n), map[string]any{"case": "volume"})
+	}
+	if forgotten > 0 {
+		r.Violation("C02|volume|accepted-twice", fmt.Sprintf("after %d distinct authenticators of one client inside one window, %d of them are accepted a second time; first: %s", n, forgotten, firstForgotten),
+			map[string]any{"case": "volume", "history": hist})
+	}
+}
+
+// ---------------------------------------------------------------------------------------
+// monitor 3d: the cache's own janitor. The process-wide cache starts its clean-up goroutine with the skew of its first user
+// and there is one per process, so each skew gets a process of its own: this test binary again, running TestJanitorChild
+// inside one bubble in which the janitor sleeps and wakes on the virtual clock while histories with short advances and
+// timestamps anywhere in the window go through service.VerifyAPREQ. The child writes its histories to a file and exits;
+// they are judged here with the same oracle as all others.
+
+const janitorChildEnv = "C02_JANITOR_CHILD"
+
+type janitorOut struct {
+	Skew      string `json:"skew"`
+	Histories [][]op `json:"histories"`
+	Errors    []string `json:"errors"`
+	// WakeupsWithEntries: times the clock passed a multiple of the skew since the cache was made while the cache held entries
+	WakeupsWithEntries int `json:"wakeups_with_entries"`
+}
+
+func TestJanitorChild(t *testing.T) {
+	spec := os.Getenv(janitorChildEnv)
+	if spec == "" {
+		t.Skip("helper process of TestProp")
+	}
+	var skS, out string
+	var n, hl int
+	var seed int
+	if _, err := fmt.Sscanf(spec, "%s %d %d %d %s", &skS, &n, &hl, &seed, &out); err != nil {
+		t.Fatal(err)
+	}
+	sk, err := time.ParseDuration(skS)
+	if err != nil {
+		t.Fatal(err)
+	}
+	e, err := newVPEnv()
+	if err != nil {
+		t.Fatal(err)
+	}
+	res := janitorOut{Skew: skS}
+	synctest.Test(t, func(t *testing.T) {
+		time.Sleep(time.Hour)
+		made := time.Now()
+		service.GetReplayCache(sk) // the janitor starts here, inside the bubble, with this skew
+		for h := 0; h < n; h++ {
+			rnd := vh.NewRand(fmt.Sprintf("c02janitor/%s/%d", skS, seed), h)
+			var hist []op
+			t1 := time.Now()
+			if p, v, w := vh.Guard(func() {
+				service.VerifResetReplayCache()
+				hist = e.history(rnd, hl, sk, true)
+			}); p {
+				res.Errors = append(res.Errors, fmt.Sprintf("history %d: %s @ %s", h, v, w))
+			}
+			res.WakeupsWithEntries += int(time.Since(made)/sk - t1.Sub(made)/sk)
+			res.Histories = append(res.Histories, hist)
+		}
+		b, _ := json.Marshal(res)
+		if err := os.WriteFile(out, b, 0o644); err != nil {
+			fmt.Fprintln(os.Stderr, "janitor child:", err)
+			os.Exit(3)
+		}
+		os.Exit(0) // the janitor never ends: leave from inside the bubble
+	})
+}
+
+func monitorJanitor(t *testing.T, r *vh.Run) {
+	si, _ := vh.Shard()
+	if si != 0 {
+		return
+	}
+	n, hl := 120, 60
+	if vh.Thorough() {
+		n, hl = 2000, 100
+	}
+	skews := []string{"2500ms", "1700ms", "7s", "999ms", "3s"}
+	exe, err := os.Executable()
+	if err != nil {
+		r.Inconclusive("janitor processes: " + err.Error())
+		return
+	}
+	type result struct {
+		out  janitorOut
+		err  string
+		race bool
+	}
+	results := make([]result, len(skews))
+	vh.Workers(len(skews), func(i int) {
+		f, err := os.CreateTemp("", "c02-janitor-*.json")
+		if err != nil {
+			results[i].err = err.Error()
+			return
+		}
+		f.Close()
+		defer os.Remove(f.Name())
+		cmd := exec.Command(exe, "-test.run", "^TestJanitorChild$", "-test.timeout", "0")
+		cmd.Env = append(os.Environ(), fmt.Sprintf("%s=%s %d %d %d %s", janitorChildEnv, skews[i], n, hl, vh.Seed(), f.Name()))
+		ob, err := cmd.CombinedOutput()
+		if err != nil {
+			results[i].err = fmt.Sprintf("%v: %s", err, tail(string(ob), 2000))
+			results[i].race = strings.Contains(string(ob), "WARNING: DATA RACE")
+			return
+		}
+		b, err := os.ReadFile(f.Name())
+		if err == nil {
+			err = json.Unmarshal(b, &results[i].out)
+		}
+		if err != nil {
+			results[i].err = err.Error()
+		}
+	})
+	for i, res := range results {
+		if res.race {
+			r.Violation("C02|janitor|data-race", "data race reported in the process running the cache's janitor: "+res.err, map[string]any{"case": "janitor/" + skews[i]})
+			continue
+		}
+		if res.err != "" {
+			r.Inconclusive("janitor process for skew " + skews[i] + ": " + res.err)
+			continue
+		}
+		r.Count("janitor_wakeups_with_entries", int64(res.out.WakeupsWithEntries))
+		for _, e := range res.out.Errors {
+			r.Violation("C02|janitor|error", "VerifyAPREQ history failed in the janitor process: "+e, map[string]any{"case": "janitor/" + skews[i]})
+		}
+		for h, hist := range res.out.Histories {
+			judgeVerifyHistory(r, fmt.Sprintf("janitor/%s/%d", skews[i], h), "janitor", hist, false, "", "", h == 0 && i == 0)
+		}
+	}
+}
+
+func tail(s string, n int) string {
+	if len(s) > n {
+		return s[len(s)-n:]
+	}
+	return s
 }
